@@ -48,8 +48,9 @@ mutual
       rw [writeExpr_erase r _ (by simp [h, pretty_writeExpr])]
       rfl
     | .unary tok op r, cw, h => by
-      simp only [Expr.erase, writeExpr, erase_isNone_expr, erase_prec]
-      rw [leadingComments_erase _ _ h, writeExpr_erase r _ (by simp [h])]
+      have hd : r.erase.isDecrement = r.isDecrement := by cases r <;> rfl
+      simp only [Expr.erase, writeExpr, erase_isNone_expr, erase_prec, hd]
+      rw [leadingComments_erase _ _ h, writeExpr_erase r _ (by split <;> simp [h])]
       rfl
     | .postfix tok l op, cw, h => by
       simp only [Expr.erase, writeExpr, erase_isNone_expr, erase_prec]
